@@ -18,7 +18,14 @@ func (m *Message) SkipClassAdRaw(ctx context.Context) error {
 	if err != nil {
 		return fmt.Errorf("failed to read expression count: %w", err)
 	}
+	if numExprs < 0 {
+		return fmt.Errorf("malformed ClassAd: negative expression count %d", numExprs)
+	}
 	for i := 0; i < numExprs; i++ {
+		// The count is chosen by the peer: never iterate past the data that arrived.
+		if m.exhausted() {
+			return fmt.Errorf("malformed ClassAd: message ended after %d of %d expressions", i, numExprs)
+		}
 		if err := m.SkipString(ctx); err != nil {
 			return fmt.Errorf("failed to skip expression %d (expected %d): %w", i, numExprs, err)
 		}
